@@ -163,7 +163,8 @@ def tensor_body(c):
 
 # ---- two differentiable arguments, extra positional / keyword parameters, argnum forms ------------------------------------------
 OPS2 = ["grad", "value_and_grad", "jacobian", "hessian", "hessian_tensor_product", "make_hvp", "make_vjp", "make_jvp", "elementwise_grad",
-        "grad_named", "multigrad", "multi_vjp", "multi_jvp", "deriv", "tensor_jacobian_product", "make_ggnvp", "make_jvp_reversemode", "grad_and_aux"]
+        "grad_named", "multigrad", "multi_vjp", "multi_jvp", "deriv", "tensor_jacobian_product", "make_ggnvp", "make_jvp_reversemode", "grad_and_aux",
+        "multigrad3"]
 
 
 def args_body(c):
@@ -204,7 +205,21 @@ def args_body(c):
             except _Stop:
                 pass
         ax, ew = ns.sum(A * x), ns.sum(E * w)
+        if ns is anp and op == "multigrad3":
+            # the bilinear term through ONE user primitive of four arguments whose first is a constant: three traced operands in one call
+            return scale * (p * (ns.sin(ax) + ns.sum(B * x * x) + ns.sum(D * w * w) + ns.sin(ew)) + tri(1.0, x, w, p))
         return scale * p * (ns.sin(ax) + ns.sum(B * x * x) + ns.sum(U * x) * ns.sum(V * w) + ns.sum(D * w * w) + ns.sin(ew))
+
+    from autograd.extend import defvjp as _defvjp, defjvp as _defjvp, primitive as _primitive
+
+    @_primitive
+    def tri(k0, x, w, p):
+        return k0 * p * onp.sum(U * x) * onp.sum(V * w)
+
+    _defvjp(tri, None, lambda ans, k0, x, w, p: lambda g: g * k0 * p * U * anp.sum(V * w),
+            lambda ans, k0, x, w, p: lambda g: g * k0 * p * anp.sum(U * x) * V, lambda ans, k0, x, w, p: lambda g: g * k0 * anp.sum(U * x) * anp.sum(V * w))
+    _defjvp(tri, None, lambda g, ans, k0, x, w, p: k0 * p * anp.sum(U * g) * anp.sum(V * w),
+            lambda g, ans, k0, x, w, p: k0 * p * anp.sum(U * x) * anp.sum(V * g), lambda g, ans, k0, x, w, p: g * k0 * anp.sum(U * x) * anp.sum(V * w))
 
     # drawn signatures: the differentiated arguments sit at different positions among extra positional parameters
     if layout == 0:
@@ -292,6 +307,18 @@ def args_body(c):
             if not (isinstance(got, tuple) and len(got) == 2):
                 return fail("wrong_kind", f"multi-argnum grad returned {type(got).__name__}", bucket("wrong_kind"), sample=sample)
             checks += [(got[0], want[0], "multigrad[0]"), (got[1], want[1], "multigrad[1]")]
+        elif op == "multigrad3":
+            # all three of x, w and the scalar p selected together (positions in the drawn signature, in a drawn order)
+            ip = [i_ for i_ in range(3) if i_ not in (ix, iw)][0]
+            order = [(ix, gx), (iw, gw), (ip, y0 / p0)]
+            if c.bool():
+                order = order[::-1]
+            got = autograd.grad(fun, tuple(i_ for i_, _ in order))(*a, **kw)
+            if not (isinstance(got, tuple) and len(got) == 3):
+                return fail("wrong_kind", f"three-argnum grad returned {type(got).__name__}", bucket("wrong_kind"), sample=sample)
+            checks += [(got[k_], order[k_][1], f"multigrad3[{k_}]") for k_ in range(3)]
+            t3 = autograd.make_jvp(fun, [ix, iw, ip])(*a, **kw)((values.direction(vseed, sx, 7), values.direction(vseed, sw, 8), 0.5))[1]
+            checks.append((t3, onp.sum(gx * values.direction(vseed, sx, 7)) + onp.sum(gw * values.direction(vseed, sw, 8)) + 0.5 * y0 / p0, "three-argnum jvp"))
         elif op == "multi_vjp":
             vjp, val = autograd.make_vjp(fun, (iw, ix))(*a, **kw)
             got = vjp(1.0)
@@ -455,8 +482,84 @@ def container_body(c):
     return ok(nontrivial=True, key=json.dumps([list(sx), list(sw), kind, spell, op]), labels=["op=" + op, "kind=" + kind, f"spelling={spell}"], sample=sample)
 
 
+def linalg_result_body(c):
+    """The result objects of numpy.linalg (named tuples) read by position in every spelling - positive, negative, through a slice, by
+    unpacking, by field name: every operator's derivative of the selected field against its closed form."""
+    import autograd
+    import autograd.numpy as anp
+
+    n = c.int(2, 3)
+    vseed = c.seed()
+    (M0, Wt), _ = values.generic(vseed, [(n, n), (n, n)], -1.0, 1.0)
+    A0 = M0 * 0.4 + 1.5 * onp.eye(n)
+    fn = c.choice(["slogdet_logabsdet", "svd_values", "eigh_values", "eig_values_real"])
+    spell = c.choice(["pos", "neg", "slice", "unpack", "field", "neg_slice"])
+    op = c.choice(["grad", "value_and_grad", "jacobian_sum", "make_vjp", "elementwise_grad_sum", "grad_and_aux"])
+    sym = lambda A: (A + anp.swapaxes(A, -1, -2)) / 2
+
+    def field(r, k, nfields, name):
+        if spell == "pos":
+            return r[k]
+        if spell == "neg":
+            return r[k - nfields]
+        if spell == "slice":
+            return r[k:][0]
+        if spell == "neg_slice":
+            return r[: k - nfields + 1 or None][-1]
+        if spell == "unpack":
+            return tuple(r)[k] if nfields != 2 else ((lambda a_, b_: (a_, b_))(*r))[k]
+        return getattr(r, name)
+
+    if fn == "slogdet_logabsdet":
+        f = lambda A: field(anp.linalg.slogdet(A), 1, 2, "logabsdet")
+        want = onp.linalg.inv(A0).T
+    elif fn == "svd_values":
+        f = lambda A: anp.sum(field(anp.linalg.svd(A, full_matrices=False), 1, 3, "S") * Wt[0])
+        U, S, Vh = onp.linalg.svd(A0)
+        want = (U * Wt[0]) @ Vh
+    elif fn == "eigh_values":
+        f = lambda A: anp.sum(field(anp.linalg.eigh(sym(A)), 0, 2, "eigenvalues") * Wt[0])
+        lam, Q = onp.linalg.eigh((A0 + A0.T) / 2)
+        want = (Q * Wt[0]) @ Q.T
+        want = (want + want.T) / 2
+    else:
+        f = lambda A: anp.sum(anp.real(field(anp.linalg.eig(sym(A)), 0, 2, "eigenvalues")) ** 2)
+        lam, Q = onp.linalg.eigh((A0 + A0.T) / 2)
+        want = (Q * (2 * lam)) @ Q.T
+        want = (want + want.T) / 2
+    sample = {"function": fn, "spelling": spell, "op": op, "n": n, "vseed": vseed}
+    c.features.update(fn=fn, spelling=spell, op=op)
+    bucket = lambda k: f"C16|linalg_result|{fn}|{k}"
+    try:
+        if op == "grad":
+            g = autograd.grad(f)(A0)
+        elif op == "value_and_grad":
+            g = autograd.value_and_grad(f)(A0)[1]
+        elif op == "jacobian_sum":
+            g = autograd.jacobian(f)(A0)
+        elif op == "make_vjp":
+            g = autograd.make_vjp(f)(A0)[0](1.0)
+        elif op == "elementwise_grad_sum":
+            g = autograd.elementwise_grad(f)(A0)
+        else:
+            g = autograd.grad_and_aux(lambda A: (f(A), 1.0))(A0)[0]
+    except AttributeError as e:
+        if spell == "field":
+            return raised(e, "linalg_result", sample=sample)  # (a traced result object without named fields: loud)
+        return fail("unexpected_exception", describe_exc(e), bucket("exception"), sample=sample)
+    except Exception as e:
+        if not from_autograd(e):
+            raise
+        return fail("unexpected_exception", describe_exc(e), bucket("exception"), sample=sample)
+    err = close(g, want, f"{op} of {fn} read as {spell}", bucket, sample, tol=1e-8)
+    if err:
+        return err
+    return ok(nontrivial=spell != "pos", key=json.dumps([fn, spell, op, n]), labels=["fn=" + fn, "spelling=" + spell, "op=" + op], sample=sample)
+
+
 PROP = Prop("C16", [
     Test("tensor", tensor_body, quick=8000, thorough=30000, shard_size=300),
     Test("args", args_body, quick=8000, thorough=30000, shard_size=300),
     Test("container_args", container_body, quick=3000, thorough=15000, shard_size=300),
+    Test("linalg_results", linalg_result_body, quick=1500, thorough=8000, shard_size=150),
 ], RULE, assumptions=["closed-form Jacobians and Hessians of the generated function family (computed with raw NumPy)"])
